@@ -120,10 +120,10 @@ fn run_history_in_one_slot<'a>(mesh: &'a Mesh, start: &Start, ops: &[Op], refs: 
     f
 }
 
-fn apply<'a>(f: engeom::geom3::mesh::filtering::TriangleFilter<'a>, op: &Op, refs: &'a [Mesh]) -> engeom::geom3::mesh::filtering::TriangleFilter<'a> {
+fn apply<'a>(f: engeom::geom3::mesh::filtering::TriangleFilter<'a>, op: &Op, refs: &[&Mesh]) -> engeom::geom3::mesh::filtering::TriangleFilter<'a> {
     match &op.crit {
         Crit::Facing { dir, angle } => f.facing(&Vector3::new(dir[0], dir[1], dir[2]), *angle, op.mode.op()),
-        Crit::Near { reference, all, dist, planar, angle } => f.near_mesh(&refs[*reference], *all, *dist, *planar, *angle, op.mode.op()),
+        Crit::Near { reference, all, dist, planar, angle } => f.near_mesh(refs[*reference], *all, *dist, *planar, *angle, op.mode.op()),
     }
 }
 
@@ -588,7 +588,7 @@ impl Property for C14 {
         if rng.chance(0.1) {
             // the mesh compared with itself: every vertex projects at distance zero
             refs.push(mesh.compact());
-            label.push_str("+self-reference");
+            label.push_str(if rng.chance(0.5) { "+self-reference-same-object" } else { "+self-reference" });
         }
         while refs.len() < nrefs {
             let mut r = gen_reference(rng, &mesh);
@@ -753,6 +753,10 @@ impl Property for C14 {
             OpResult::Panic(m) => return Obs { construct: Some(m), prefixes: vec![], singles: vec![], created: None, created_direct: None },
             OpResult::Budget(_) => return Obs { construct: Some("budget".into()), prefixes: vec![], singles: vec![], created: None, created_direct: None },
         };
+        // "the mesh compared with itself" may be meant literally: the subject handed over as its
+        // own reference, the same object and not a copy
+        let same_object = sc.label.contains("+self-reference-same-object");
+        let ref_list: Vec<&Mesh> = refs.iter().enumerate().map(|(i, r)| if same_object && i == 0 { &mesh } else { r }).collect();
         let n = sc.mesh.v.len() + sc.mesh.f.len();
         let b = budget(n) * (1 + sc.ops.len() as u64);
         let mut prefixes = Vec::new();
@@ -763,7 +767,7 @@ impl Property for C14 {
                 } else {
                     let mut f = mesh.face_select(selection(&sc.start));
                     for op in &sc.ops[..k] {
-                        f = apply(f, op, &refs);
+                        f = apply(f, op, &ref_list);
                     }
                     f.collect()
                 }
@@ -775,11 +779,11 @@ impl Property for C14 {
             for &face in &sc.probe_faces {
                 row.push(sim.op("face_select(single)..collect", b, || {
                     let keep = Op { crit: op.crit.clone(), mode: Mode::Keep };
-                    let kept = apply(mesh.face_select(Selection::Indices(vec![face])), &keep, &refs).collect() == vec![face];
+                    let kept = apply(mesh.face_select(Selection::Indices(vec![face])), &keep, &ref_list).collect() == vec![face];
                     let remove = Op { crit: op.crit.clone(), mode: Mode::Remove };
-                    let removed = apply(mesh.face_select(Selection::Indices(vec![face])), &remove, &refs).collect().is_empty();
+                    let removed = apply(mesh.face_select(Selection::Indices(vec![face])), &remove, &ref_list).collect().is_empty();
                     let add = Op { crit: op.crit.clone(), mode: Mode::Add };
-                    let added = apply(mesh.face_select(Selection::None), &add, &refs).collect().contains(&face);
+                    let added = apply(mesh.face_select(Selection::None), &add, &ref_list).collect().contains(&face);
                     [kept, removed, added]
                 }));
             }
@@ -790,7 +794,7 @@ impl Property for C14 {
             let c = sim.op("face_select..create_mesh", b, || {
                 let mut f = mesh.face_select(selection(&sc.start));
                 for op in &sc.ops {
-                    f = apply(f, op, &refs);
+                    f = apply(f, op, &ref_list);
                 }
                 from_mesh(&f.create_mesh())
             });
